@@ -74,10 +74,17 @@ class SymInt:
     """int proxy.  t: BitVec(W) (signed);  nb: magnitude bound in bits (value in [-2^nb, 2^nb)) or None."""
     __slots_hint__ = ("t", "nb", "nonneg")
 
-    def __new__(cls, t=0, *a, **k):
-        return object.__new__(cls)
+    # like the built-in it stands for, the VALUE is fixed in __new__ (from the arguments __new__ receives - a subclass's __new__ may pass
+    # on different ones) and __init__ ignores its arguments
+    def __new__(cls, *a, **k):
+        obj = object.__new__(cls)
+        obj._proxy_init(*a, **k)
+        return obj
 
-    def __init__(self, t=0, *a, nb=None, nonneg=False, **k):
+    def __init__(self, *a, **k):
+        pass
+
+    def _proxy_init(self, t=0, *a, nb=None, nonneg=False, **k):
         if isinstance(t, SymInt):
             t, nb, nonneg = t.t, t.nb, t.nonneg
         elif isinstance(t, (builtins.int, builtins.bool)):
@@ -387,12 +394,21 @@ class SymInt:
         # a symbolic integer used as a dict / set key (memo tables): first fork on "equal to a key hashed earlier on this path" - the
         # collision histories are the interesting ones - and only then fall back to enumerating concrete values
         c = _c()
+        t = z3.simplify(self.t)
+        if z3.is_bv_value(t):
+            return hash(t.as_signed_long())
+        memo = c.__dict__.setdefault("_picked", {})
+        hit = memo.get(t.get_id())
+        if hit is not None:
+            return hash(hit[1])
         seen = c.__dict__.setdefault("hashed", [])
         for pv in seen:
-            if c.fork(self.t == pv):
+            if c.fork(t == pv):
+                memo[t.get_id()] = (t, pv)
                 return hash(pv)
-        v = c.pick(self.t)
-        seen.append(v)
+        v = c.pick(t)
+        if v not in seen:
+            seen.append(v)
         return hash(v)
 
     def __bool__(self):
@@ -457,10 +473,15 @@ def trunc_int(r):
 class SymReal:
     """float proxy over the reals."""
 
-    def __new__(cls, t=0.0, *a, **k):
-        return object.__new__(cls)
+    def __new__(cls, *a, **k):
+        obj = object.__new__(cls)
+        obj._proxy_init(*a, **k)
+        return obj
 
-    def __init__(self, t=0.0, *a, integral=False, **k):
+    def __init__(self, *a, **k):
+        pass
+
+    def _proxy_init(self, t=0.0, *a, integral=False, **k):
         if isinstance(t, IntegralReal):
             t = t.t
             integral = True
@@ -590,7 +611,7 @@ class IntegralReal(SymReal):
     """float(x) of a symbolic int: an integer-valued float that stays a BV term under integral arithmetic.
     Exact in binary64 while |v| < 2**53, which is guarded."""
 
-    def __init__(self, b=0, *a, nb=None, **k):
+    def _proxy_init(self, b=0, *a, nb=None, **k):
         if isinstance(b, SymInt):
             b, nb = b.t, b.nb
         self.b = b
@@ -684,10 +705,15 @@ def byte_term(x):
 class SymBytes:
     """bytes proxy: concrete length, symbolic content (items are python ints or 8-bit BV terms)."""
 
-    def __new__(cls, items=(), *a, **k):
-        return object.__new__(cls)
+    def __new__(cls, *a, **k):
+        obj = object.__new__(cls)
+        obj._proxy_init(*a, **k)
+        return obj
 
-    def __init__(self, items=(), *a, **k):
+    def __init__(self, *a, **k):
+        pass
+
+    def _proxy_init(self, items=(), *a, **k):
         if isinstance(items, SymBytes):
             items = items.items
         elif isinstance(items, builtins.str):
@@ -801,10 +827,15 @@ class SymBytes:
 class SymStr:
     """str proxy: either a concrete python str or the uninterpreted decode(codec, bytes)."""
 
-    def __new__(cls, v="", *a, **k):
-        return object.__new__(cls)
+    def __new__(cls, *a, **k):
+        obj = object.__new__(cls)
+        obj._proxy_init(*a, **k)
+        return obj
 
-    def __init__(self, v="", *a, **k):
+    def __init__(self, *a, **k):
+        pass
+
+    def _proxy_init(self, v="", *a, **k):
         if isinstance(v, SymStr):
             v = v.v
         elif isinstance(v, (SymBytes, builtins.bytes)) and not a:
@@ -1105,9 +1136,41 @@ def uninstall():
             setattr(obj, attr, old)
 
 
+def rebind_super(newc, real):
+    """methods copied from `real` that use zero-argument super() (or __class__) carry a closure cell holding the ORIGINAL class; give the
+    copies in `newc` a cell holding `newc`, so that super() resolves along the re-hosted class's own MRO"""
+    import types
+
+    def fix(f):
+        if not isinstance(f, types.FunctionType) or not f.__closure__ or "__class__" not in f.__code__.co_freevars:
+            return f
+        cells = tuple(types.CellType(newc) if name == "__class__" and cell.cell_contents is real else cell
+                      for name, cell in zip(f.__code__.co_freevars, f.__closure__))
+        g = types.FunctionType(f.__code__, f.__globals__, f.__name__, f.__defaults__, cells)
+        g.__kwdefaults__, g.__dict__, g.__qualname__, g.__doc__ = f.__kwdefaults__, dict(f.__dict__), f.__qualname__, f.__doc__
+        g.__annotations__ = dict(getattr(f, "__annotations__", {}))
+        return g
+    for k, v in list(newc.__dict__.items()):
+        if isinstance(v, types.FunctionType):
+            w = fix(v)
+        elif isinstance(v, (staticmethod, classmethod)):
+            w = type(v)(fix(v.__func__))
+            if w.__func__ is v.__func__:
+                continue
+        elif isinstance(v, property):
+            w = property(fix(v.fget) if v.fget else None, fix(v.fset) if v.fset else None, fix(v.fdel) if v.fdel else None, v.__doc__)
+            if (w.fget, w.fset, w.fdel) == (v.fget, v.fset, v.fdel):
+                continue
+        else:
+            continue
+        if w is not v:
+            setattr(newc, k, w)
+    return newc
+
+
 def rehost_class(real, base, name=None):
     ns = {k: v for k, v in real.__dict__.items() if k not in ("__dict__", "__weakref__")}
-    return type(name or real.__name__, (base,), ns)
+    return rebind_super(type(name or real.__name__, (base,), ns), real)
 
 
 class Lib:
@@ -1151,7 +1214,7 @@ def install(width=128):
         ns = {k: v for k, v in real.__dict__.items() if k not in ("__dict__", "__weakref__", "__module__", "__doc__")}
         # the value class keeps its own body (BoolParameter.__repr__) and the real _Parameter.__new__; only the
         # C-level base (int / float / str / bytes) is swapped for the proxy
-        _set(common, n, type(n, (P, base), ns))
+        _set(common, n, rebind_super(type(n, (P, base), ns), real))
     _set(encodings.NumericDataEncoding, "_data_return_class", common.FloatParameter)
     _set(encodings.FloatDataEncoding, "_data_return_class", common.FloatParameter)
     _set(encodings.IntegerDataEncoding, "_data_return_class", common.IntParameter)
